@@ -32,7 +32,7 @@ func TestMain(m *testing.M) {
 
 // Case is the replay unit of all three parts.
 type Case struct {
-	Part   string `json:"part"`             // "seq" | "conc" | "diff" | "hashprobe"
+	Part   string `json:"part"`             // "seq" | "conc" | "diff" | "life" | "hashprobe"
 	Family string `json:"family,omitempty"` // conc: program family
 	Ops    []Op   `json:"ops,omitempty"`
 	Pre    []Op   `json:"pre,omitempty"`   // conc: sequential set-up
@@ -519,6 +519,8 @@ func TestReplay(t *testing.T) {
 		t.Logf("concurrent history linearizable in 200 executions")
 	case "diff":
 		finishDiff(t, c, runDiff(c.Ops))
+	case "life":
+		finishLife(t, c, runLife(c.Ops))
 	case "hashprobe":
 		if crashed, tail := probeHashReaders(); crashed {
 			vkit.Violation(t, "C13/memory-hash-read/map-accessed-outside-lock", tail, c)
